@@ -387,8 +387,15 @@ def symbolic_inputs(tree, inst: Instance):
     names = inst.names(args, kwargs)
     sym = []
     sids_all = []
+    alias = {}
     for i in arr_idx:
         leaf = leaves[i]
+        if id(leaf) in alias:  # the same array object at several leaves: one set of symbols
+            k = alias[id(leaf)]
+            sym.append(sym[k])
+            sids_all.append(sids_all[k])
+            continue
+        alias[id(leaf)] = len(sym)
         a = np.asarray(leaf)
         path = names.get(id(leaf), paths[i])
         if a.dtype.kind == "f" or (a.dtype.kind in "iu" and id(leaf) in int_ids):
